@@ -1,7 +1,8 @@
 (* Spec/AvmDump.v -- prints the trusted AVM tables of Spec/AvmTables.v as text, one row per line, for the independent
    C19 oracle of the violation search (tools/avmspec.py).  Not used by any theorem; nothing here is generated from the
    analyzer's source.  Row formats:
-     op|<mnemonic>|<introduction version>|<mode at v=1..8, letters A/S/P (Any / Signature / aPplication)>|<cost at v=1..8, comma separated>
+     op|<mnemonic>|<introduction version>|<mode at v=1..8, letters A/S/P (Any / Signature / aPplication)>|<cost at v=1..8, comma separated>|<pops>|<pushes>
+        arities: K<k> constant, N<p> first immediate + p, L<p> number of immediates + p, O<a>:<b> a without / b with the optional immediate
      curve|<mnemonic>|<curve>|<curve introduction version>|<cost>
      field|<table>|<name>|<introduction version>                                                                    *)
 From Coq Require Import String List NArith Bool.
@@ -14,9 +15,12 @@ Definition mode_letter (m : xmode) : string := match m with MAny => "A" | MState
 Fixpoint join_with (sep : string) (l : list string) : string :=
   match l with [] => "" | [x] => x | x :: t => x ++ sep ++ join_with sep t end.
 Definition nl : string := String (Ascii.ascii_of_nat 10) "".
+Definition nat_s (n : nat) : string := string_of_N (N.of_nat n).
+Definition arity_s (a : arity) : string :=
+  match a with ArK k => "K" ++ nat_s k | ArN p => "N" ++ nat_s p | ArLen p => "L" ++ nat_s p | ArOpt a b => "O" ++ nat_s a ++ ":" ++ nat_s b end.
 Definition op_row (o : avm_op) : string :=
   "op|" ++ a_mnemonic o ++ "|" ++ string_of_N (a_version o) ++ "|" ++ join_with "" (map (fun v => mode_letter (avm_mode_at o v)) vs)
-  ++ "|" ++ join_with "," (map (fun v => string_of_N (a_cost o v)) vs).
+  ++ "|" ++ join_with "," (map (fun v => string_of_N (a_cost o v)) vs) ++ "|" ++ arity_s (a_pops o) ++ "|" ++ arity_s (a_pushes o).
 Definition curve_row (r : string * string * N * N) : string :=
   let '(m, c, v, k) := r in "curve|" ++ m ++ "|" ++ c ++ "|" ++ string_of_N v ++ "|" ++ string_of_N k.
 Definition field_rows (tbl : string) (l : list (string * N)) : list string :=
